@@ -114,6 +114,10 @@ def run(ctx, n_random=None):
                 check(q, "paren-tail")
                 if depth == 1:
                     union_reqs.append(q)
+                # … and a WITH clause written in front of the wholly parenthesised body
+                qw = dict(q, **{"with": [("w8", mk(("chain", ("select", simple_select(7)), []), "none"))]})
+                qw["with"] = [("w8", dict(qw["with"][0][1], body=("select", simple_select(7))))]
+                check(qw, "with-paren")
 
     # ---- Tie B for to_union_call: the model folds the REAL trees of the operands
     if ctx.driver:
